@@ -212,6 +212,90 @@ static void tf_all(bool thorough)
     R.sample("{\"num\":[1,2],\"den\":[-1,0,1],\"inputs\":[1,0,2],\"outputs\":\"y0=1, y1=2+1=3, y2=2+3=5 (exact integers)\"}");
 }
 
+// ---------------------------------------------------------------- transfer function, higher orders
+// Orders beyond the exhaustive family (unrolled or blocked loops have remainders at 4, 8, 16): every (numerator, denominator) order pair
+// up to NMAX, coefficient vectors that identify each tap (pairwise different magnitudes; unit vectors at every position; one-tap and
+// dense denominators), input words that separate the history entries (impulses at two positions, a ramp, a sign pattern), with a zeroing
+// in the middle; small integers throughout, so the comparison with the difference equation on the recorded history is exact.
+static bool one_word(const std::vector<double> &num, const std::vector<double> &den, const std::vector<double> &w, int zero_at)
+{
+    std::string in = "{\"num\":" + vec(num) + ",\"den\":" + vec(den) + ",\"inputs\":" + vec(w) + (zero_at >= 0 ? ",\"zero_after\":" + std::to_string(zero_at) : "") + "}";
+    std::string cls = "tf|num" + std::to_string(num.size()) + "-den" + std::to_string(den.size());
+    Filter F(num, den);
+    std::vector<double> x, y;
+    ++n_words;
+    if (F.state().find_first_not_of('\0') != std::string::npos) { R.viol(cls + "|init", "a_tf_init did not clear the delay lines", in); return false; }
+    for (size_t k = 0; k < w.size(); ++k)
+    {
+        if ((int)k == zero_at)
+        {
+            a_tf_zero(&F.tf);
+            if (F.state().find_first_not_of('\0') != std::string::npos) { R.viol(cls + "|zero", "a_tf_zero did not restore the zero state", in); return false; }
+            x.clear(); y.clear();
+        }
+        a_real got = a_tf_iter(&F.tf, (a_real)w[k]);
+        x.push_back(w[k]);
+        double want = ref_output(num, den, x, y, x.size() - 1);
+        y.push_back(want);
+        ++n_eval;
+        n_nt += want != 0;
+        if (!F.in.ok() || !F.out.ok()) { R.viol(cls + "|overrun", "a_tf_iter wrote outside a delay line", in); return false; }
+        if ((double)got != want)
+        {
+            R.viol(cls + (zero_at >= 0 ? "|after-zero" : "|equation"), "output " + ::num((double)got) + " at sample " + std::to_string(k) + " is not sum(num*recent inputs) - sum(den*recent outputs) = " + ::num(want), in);
+            return false;
+        }
+    }
+    return true;
+}
+static void tf_high(bool thorough)
+{
+    uint64_t e0 = n_eval, t0 = n_nt, item = 1u << 20;
+    int NMAX = thorough ? 20 : 11;
+    for (int nn = 0; nn <= NMAX; ++nn)
+    {
+        for (int dn = 0; dn <= NMAX; ++dn)
+        {
+            if (nn <= 3 && dn <= 3) { continue; }
+            if (!R.shard.mine(item++)) { continue; }
+            vx::mark("tf|high orders num,den", (uint64_t)nn, (uint64_t)dn);
+            std::vector<std::vector<double>> nums, dens;
+            {
+                std::vector<double> v;
+                for (int i = 0; i < nn; ++i) { v.push_back((i % 2 ? -1.0 : 1.0) * (i + 1)); }
+                nums.push_back(v);
+                for (int j = 0; j < nn; ++j) { std::vector<double> u((size_t)nn, 0.0); u[(size_t)j] = 1; nums.push_back(u); }
+            }
+            {
+                dens.push_back(std::vector<double>((size_t)dn, 0.0));
+                for (int j = 0; j < dn; ++j) { for (double sgn : {1.0, -1.0}) { std::vector<double> u((size_t)dn, 0.0); u[(size_t)j] = sgn; dens.push_back(u); } }
+                std::vector<double> v;
+                for (int i = 0; i < dn; ++i) { v.push_back((double)(i % 3) - 1); }
+                if (dn) { dens.push_back(v); }
+                if (dn && dn <= 12) { dens.push_back(std::vector<double>((size_t)dn, -1.0)); } // y grows like 2^k: bounded by the word length below
+            }
+            size_t L = (size_t)std::min(nn + dn + 4, 14); // |y| <= 5 * sum|num| * 2^L stays below 2^24: exact in the float build too
+            std::vector<std::vector<double>> ws;
+            { std::vector<double> w(L, 0.0); w[0] = 1; ws.push_back(w); }
+            { std::vector<double> w(L, 0.0); w[2] = 2; ws.push_back(w); }
+            { std::vector<double> w; for (size_t k = 0; k < L; ++k) { w.push_back((double)(k % 5) + 1); } ws.push_back(w); }
+            { std::vector<double> w; for (size_t k = 0; k < L; ++k) { w.push_back((k % 2 ? -1.0 : 1.0) * (double)(k % 3)); } ws.push_back(w); }
+            for (const auto &nu : nums)
+            {
+                for (const auto &de : dens)
+                {
+                    bool ok = true;
+                    for (const auto &w : ws) { ok = ok && one_word(nu, de, w, -1); }
+                    if (ok) { one_word(nu, de, ws[2], (int)L / 2); }
+                }
+            }
+            R.tick();
+            vx::tick();
+        }
+    }
+    R.part(std::string("transfer function, orders up to ") + std::to_string(NMAX) + "/" + std::to_string(NMAX) + ": tap-identifying coefficient vectors (index-coded, unit vectors at every position; zero, one-tap +-1, period-3 and all -1 denominators) x impulse, delayed impulse, ramp and sign-pattern words of length <= 14, zeroing at mid-word", n_eval - e0, n_nt - t0);
+}
+
 // ---------------------------------------------------------------- RC filters
 static void rc_all(bool thorough)
 {
@@ -388,6 +472,7 @@ int main(int argc, char **argv)
     bool thorough = R.tier == "thorough";
     return vx::run_contained([&] {
         tf_all(thorough);
+        tf_high(thorough);
         rc_all(thorough);
         R.finish(true, "every listed domain enumerated");
     }, 120.0);
